@@ -25,6 +25,7 @@ type scenario struct {
 	SecondStrt bool   `json:"secondstart"` // a second start while the server runs
 	ConcShut   bool   `json:"concshut"`    // two Shutdown calls at once
 	LateSend   bool   `json:"latesend"`    // some requests are sent while the shutdown is in progress
+	Spare      bool   `json:"spare"`       // the value holds both fields: a spare PacketConn on the tcp server / a spare Listener on the packet server
 	FailFirst  int    `json:"failfirst"`   // 1: a start with nothing to serve on fails first; 2: a call that cannot succeed (ListenAndServe)
 	FailShut   bool   `json:"failshut"`    // ... then a Shutdown, which must be refused
 	Restart    bool   `json:"restart"`     // after everything returned: fresh listener, start again, shut down again
@@ -50,6 +51,7 @@ func genScenario(mode string, r *rand.Rand) scenario {
 	sc.ConcShut = r.Intn(4) == 0
 	sc.LateSend = r.Intn(3) == 0
 	sc.Restart = mode == "tcp" && r.Intn(4) == 0
+	sc.Spare = r.Intn(3) == 0
 	if r.Intn(3) == 0 {
 		sc.FailFirst = 1 + r.Intn(2)
 		sc.FailShut = r.Intn(2) == 0
@@ -97,7 +99,7 @@ func failedStart(w *World, sc *scenario) bool {
 
 // oneGeneration drives one start .. shutdown cycle.  It returns false when the run
 // had to be abandoned (a hang was reported).
-func oneGeneration(w *World, sc *scenario, r *rand.Rand, first bool) bool {
+func oneGeneration(w *World, sc *scenario, r *rand.Rand, first bool) (done bool) {
 	for len(w.started) > 0 { // a tick nobody waited for
 		<-w.started
 	}
@@ -166,6 +168,14 @@ func oneGeneration(w *World, sc *scenario, r *rand.Rand, first bool) bool {
 		}
 	}
 	jitter(r)
+	if sc.Spare && sc.Mode == "tcp" && !raced && !sc.SecondStrt {
+		w.SparePC() // nobody is inside a critical section: the server runs, no call is being made
+		defer func() {
+			if done { // every call has returned
+				w.ClearPC()
+			}
+		}()
+	}
 	// shutdown(s)
 	hs := []int{w.Shutdown()}
 	if sc.ConcShut {
@@ -253,6 +263,9 @@ func record(mode, out string, nruns int) {
 		w.auto.Store(!sc.Ctx) // with an expiring ctx the handlers must still be inside when it expires
 		wr.Emit(sched.Event{Ev: "reset", Res: "-"})
 		ok := true
+		if sc.Spare && mode != "tcp" && sc.FailFirst != 1 {
+			w.SpareListener()
+		}
 		if sc.FailFirst != 0 {
 			ok = failedStart(w, &sc)
 		}
